@@ -307,12 +307,34 @@ func (g *generator) walkAllOf(schema *openapi3.Schema) (ast.Type, error) {
 
 func (g *generator) walkOneOf(schema *openapi3.Schema) (ast.Type, error) {
 	discriminator, mapping := g.getDiscriminator(schema)
-	return g.walkDisjunctions(schema.OneOf, discriminator, mapping)
+
+	def, err := g.walkDisjunctions(schema.OneOf, discriminator, mapping)
+	if err != nil {
+		return ast.Type{}, err
+	}
+
+	return withDefault(def, schema), nil
 }
 
 func (g *generator) walkAnyOf(schema *openapi3.Schema) (ast.Type, error) {
 	discriminator, mapping := g.getDiscriminator(schema)
-	return g.walkDisjunctions(schema.AnyOf, discriminator, mapping)
+
+	def, err := g.walkDisjunctions(schema.AnyOf, discriminator, mapping)
+	if err != nil {
+		return ast.Type{}, err
+	}
+
+	return withDefault(def, schema), nil
+}
+
+// withDefault gives the type of a node described by a composition keyword
+// (`oneOf`, `anyOf`) the default written next to that keyword.
+func withDefault(def ast.Type, schema *openapi3.Schema) ast.Type {
+	if schema.Default != nil && def.Default == nil {
+		def.Default = typedValue(schema, schema.Default)
+	}
+
+	return def
 }
 
 func (g *generator) walkEnum(schema *openapi3.Schema) (ast.Type, error) {
